@@ -30,7 +30,7 @@ func fields(impl string) []*fieldrun.Field {
 	{ // GF(2^255-19): any 32-byte string is an element
 		var r [4]fp25519.Elt
 		p := fp25519.P()
-		f := &fieldrun.Field{Name: "fp25519", Impl: "math/fp25519 " + impl, P: vlib.FromLE(p[:]), Max: m1(pow2(256)), NRegs: 4,
+		f := &fieldrun.Field{Name: "fp25519", Impl: "math/fp25519 " + impl, P: vlib.FromLE(p[:]), Max: m1(pow2(256)), NRegs: 4, FoldBits: 256,
 			Set: func(i int, v *big.Int) { copy(r[i][:], vlib.ToLE(v, 32)) }, Get: func(i int) *big.Int { return vlib.FromLE(r[i][:]) },
 			Mul: func(z, x, y int) { fp25519.Mul(&r[z], &r[x], &r[y]) }, Add: func(z, x, y int) { fp25519.Add(&r[z], &r[x], &r[y]) },
 			Sub: func(z, x, y int) { fp25519.Sub(&r[z], &r[x], &r[y]) }, Sqr: func(z, x int) { fp25519.Sqr(&r[z], &r[x]) },
@@ -57,7 +57,7 @@ func fields(impl string) []*fieldrun.Field {
 	{ // GF(2^448-2^224-1)
 		var r [4]fp448.Elt
 		p := fp448.P()
-		f := &fieldrun.Field{Name: "fp448", Impl: "math/fp448 " + impl, P: vlib.FromLE(p[:]), Max: m1(pow2(448)), NRegs: 4,
+		f := &fieldrun.Field{Name: "fp448", Impl: "math/fp448 " + impl, P: vlib.FromLE(p[:]), Max: m1(pow2(448)), NRegs: 4, FoldBits: 448,
 			Set: func(i int, v *big.Int) { copy(r[i][:], vlib.ToLE(v, 56)) }, Get: func(i int) *big.Int { return vlib.FromLE(r[i][:]) },
 			Mul: func(z, x, y int) { fp448.Mul(&r[z], &r[x], &r[y]) }, Add: func(z, x, y int) { fp448.Add(&r[z], &r[x], &r[y]) },
 			Sub: func(z, x, y int) { fp448.Sub(&r[z], &r[x], &r[y]) }, Sqr: func(z, x int) { fp448.Sqr(&r[z], &r[x]) },
